@@ -162,6 +162,10 @@ def scenarios(ctx):
     add("mux", LONG, 3, "stall", 4, lanecap=100, lazy=False)
     for comb in ("marshal", "unmarshal", "batcher", "dual", "queue"):
         add(comb, 1500, WS[comb][0], "stall", PROCS[len(comb) % 4], capin=10)
+    # a reader that starts late and pauses for longer than any internal time-out could be
+    for comb in ("marshal", "unmarshal", "serde", "batcher", "dual", "queue"):
+        add(comb, 1500, 4 if comb in ("marshal", "unmarshal", "serde") else WS[comb][0], "longstall", PROCS[(len(comb) + 1) % 4], capin=10)
+    add("mux", 1500, 3, "longstall", 4, lanecap=100, lazy=False)
     # the production settings of the batcher: timeout of one microsecond
     for n in (1, 9, 10, 11, 101):
         add("batcher", n, 10, "slowprod", PROCS[n % 4], timeout_us=1)
